@@ -6,7 +6,8 @@
   must stay silent : every behaviour-preserving refactor (seeded/* with kind == benign-refactor, plus any directory given with
               --benign DIR containing <x>/patch.diff) leaves ALL 20 checks silent.
 
-usage: regress.py [--jobs N] [--only fire|silent] [--benign DIR ...] [name-substring ...]
+usage: regress.py [--jobs N] [--only fire|silent] [--cross] [--benign DIR ...] [name-substring ...]
+(--cross: run all 20 checks on the breaking changes too and list the checks of OTHER properties that fire)
 Writes tools/regress_last.json ."""
 import glob
 import json
@@ -47,6 +48,8 @@ def run_checks(patch, props, tag):
 def main():
     argv = sys.argv[1:]
     jobs, only, benign_dirs, names = 8, None, [], []
+    cross = "--cross" in argv
+    argv = [a for a in argv if a != "--cross"]
     i = 0
     while i < len(argv):
         if argv[i] == "--jobs":
@@ -78,7 +81,7 @@ def main():
     def one(w):
         kind, name, patch, expect = w
         try:
-            fired = run_checks(patch, list(expect) if kind == "fire" else PROPS, name.replace("/", "_"))
+            fired = run_checks(patch, (PROPS if cross else list(expect)) if kind == "fire" else PROPS, name.replace("/", "_"))
         except RuntimeError as e:
             return w, None, str(e)
         if kind == "fire":
@@ -92,6 +95,10 @@ def main():
     with ThreadPoolExecutor(max_workers=jobs) as ex:
         for (kind, name, patch, expect), ok, fired in ex.map(one, work):
             results.append({"kind": kind, "name": name, "ok": ok, "fired": fired})
+            if cross and kind == "fire" and isinstance(fired, dict):
+                others = {p: v[0].split("|", 1)[1][:70] for p, v in fired.items() if p not in expect}
+                if others:
+                    print(f"  [CROSS] {name} (breaks {list(expect)}): also fires {others}", flush=True)
             if ok is None:
                 print(f"  [SKIP] {kind:6s} {name}: {fired}", flush=True)
             elif not ok:
